@@ -1,6 +1,6 @@
 (* C20 -- pivot_stack / pivot_unstack models at observed values + comparators.  Labels are tuples
    (list val; a depth-1 label is a 1-tuple). *)
-Require Import SF.Prelude SF.Dtype SF.Value Gen.Gen_c20 SF.RelJoinVal SF.RelStack.
+Require Import SF.Prelude SF.Dtype SF.Value SF.RelJoinVal SF.RelStack.
 
 Definition tup := list val.
 Definition tup_eqb : tup -> tup -> bool := list_eqb val_eqb.
@@ -25,8 +25,7 @@ Definition M_stack_v (fill : val) (f : sframe val tup (tup * tup)) : vsframe :=
   stack_view (M_stack tup_eqb tup_eqb fill f).
 Definition S_stack_v (fill : val) (f : sframe val tup (tup * tup)) : vsframe :=
   stack_view (S_stack tup_eqb tup_eqb tup_eqb fill f).
-Definition M_unstack_v (fill : val) (castfill : list (res val)) (f : sframe val (tup * tup) tup) : res vsframe :=
-  res_map unstack_view (M_unstack tup_eqb tup_eqb gen_unstack_dtype_from_last_group fill castfill f).
+(* M_unstack_v / unstack_m_ok: SF/RelStackGenVal.v (they depend on the regenerated flag; this file must not) *)
 Definition S_unstack_v (fill : val) (f : sframe val (tup * tup) tup) : vsframe :=
   unstack_view (S_unstack tup_eqb tup_eqb tup_eqb fill f).
 
@@ -52,12 +51,6 @@ Definition stack_m_ok (fill : val) (f : sframe val tup (tup * tup)) (obs : res v
 Definition stack_s_ok (fill : val) (f : sframe val tup (tup * tup)) (obs : res vsframe) : bool :=
   match obs with Ok o => vsframe_keyed_eqb (S_stack_v fill f) o | Err _ => false end.
 
-Definition unstack_m_ok (fill : val) (castfill : list (res val)) (f : sframe val (tup * tup) tup) (obs : res vsframe) : bool :=
-  match M_unstack_v fill castfill f, obs with
-  | Ok m, Ok o => vsframe_eqb m o
-  | Err e1, Err e2 => String.eqb e1 e2
-  | _, _ => false
-  end.
 Definition unstack_s_ok (fill : val) (f : sframe val (tup * tup) tup) (obs : res vsframe) : bool :=
   match obs with Ok o => vsframe_keyed_eqb (S_unstack_v fill f) o | Err _ => false end.
 
